@@ -18,11 +18,11 @@ V3 == JsonDeserialize("eea3.json").cases
 VS == JsonDeserialize("snow3g.json").cases
 VZ == JsonDeserialize("zuc.json").cases
 VA == JsonDeserialize("aes.json")
-Idx(s) == 1..Len(s)
+IdxOf(s) == 1..Len(s)
 Items ==
-  ({"eea1"} \X Idx(V1) \X {0}) \cup ({"eea2"} \X Idx(V2) \X {0}) \cup ({"eea3"} \X Idx(V3) \X {0})
-  \cup ({"snow3g"} \X Idx(VS) \X {0}) \cup ({"zuc"} \X Idx(VZ) \X {0})
-  \cup ({"aesblock"} \X Idx(VA.block) \X {0}) \cup ({"aesctr"} \X Idx(VA.ctr) \X {0})
+  ({"eea1"} \X IdxOf(V1) \X {0}) \cup ({"eea2"} \X IdxOf(V2) \X {0}) \cup ({"eea3"} \X IdxOf(V3) \X {0})
+  \cup ({"snow3g"} \X IdxOf(VS) \X {0}) \cup ({"zuc"} \X IdxOf(VZ) \X {0})
+  \cup ({"aesblock"} \X IdxOf(VA.block) \X {0}) \cup ({"aesctr"} \X IdxOf(VA.ctr) \X {0})
   \cup ({"perm"} \X (1..4) \X {0})
   \cup ({"alpha"} \X (1..4) \X (0..255))
   \cup ({"laws"} \X (0..3) \X (0..MaxBits))
